@@ -398,7 +398,40 @@ def sig_of(f):
     return {"branch": "wal.recover." + p[0], "kind": kind, "detail": "/".join(p[1:])}
 
 
+def replay_mode(path):
+    """python3 checks/C16.py replay /verif/replay/C16/vNNN.json : re-run the recorded case on the current tree.
+    exit 1 if the real readers break the contract again, 0 if not, 2 on infrastructure problems."""
+    root = common.scratch("c16r-")
+    moddir = os.path.join(common.ROOT, "walsim")
+    if common.REPO != "/repo":
+        md = os.path.join(root, "walsim-src")
+        shutil.copytree(moddir, md, ignore=shutil.ignore_patterns("go.sum"))
+        gm = open(os.path.join(md, "go.mod")).read().replace("=> /repo/etcd", "=> %s/etcd" % common.REPO)
+        open(os.path.join(md, "go.mod"), "w").write(gm)
+        moddir = md
+    binary = common.go_build(moddir, ".", os.path.join(root, "walsim"), tags="")
+    out = os.path.join(root, "one.ndjson")
+    p = subprocess.run([binary, "one", "-in", path, "-out", out, "-work", os.path.join(root, "w")], stdout=subprocess.PIPE,
+                       stderr=subprocess.STDOUT, text=True, env=common.env(), preexec_fn=limit_child, timeout=600)
+    print(p.stdout[-2000:])
+    if p.returncode == 3:
+        common.die_infra("walsim one: " + p.stdout[-1000:])
+    nviol = 0
+    if os.path.exists(out):
+        for line in open(out):
+            d = json.loads(line)
+            if d.get("class") == "violation":
+                nviol += 1
+                print("REPRODUCED %s: %s" % (d.get("sig"), (d.get("detail") or "")[:400]))
+    if p.returncode != 0 and nviol == 0:
+        print("REPRODUCED: the reader process died (rc=%s)" % p.returncode)
+        nviol = 1
+    sys.exit(1 if nviol else 0)
+
+
 def main():
+    if len(sys.argv) > 2 and sys.argv[1] == "replay":
+        replay_mode(sys.argv[2])
     tier = common.tier_arg()
     seed = common.seed()
     t0 = time.time()
@@ -530,6 +563,18 @@ def main():
                        "scenario line with `walsim replay -in <file>` or the campaign with the same -seed" % f.get("campaign")},
                  what="[%s %s] %s" % (f.get("campaign"), f.get("id"), f.get("detail")))
 
+    by_source = collections.Counter()
+    for f in C.findings:
+        if f.get("class") == "violation":
+            src = f.get("campaign", "?")
+            if src == "replay":
+                src = "replay:" + re.sub(r"[0-9./].*$", "", f.get("id", "?"))    # TLC instance the scenario came from
+            if f.get("kind") == "trace-rejected":
+                src = "b2-tracewal"
+            by_source[src] += 1
+    if by_source:
+        print("C16: findings-by-source %s (witnesses kept: at most 3 per signature and worker; known findings included)"
+              % " ".join("%s=%d" % kv for kv in sorted(by_source.items())), flush=True)
     ndiv = sum(divergences.values())
     st = C.stats
     cor = st["corrupt"]
@@ -577,6 +622,7 @@ def main():
                             "later save had overwritten starting at or below that index (the entry was written; DESIGN 2.4)",
                             "commit-only-hardstate": "implicit: a commit-only Save is not required to be durable (MustSync false)"},
         "ambiguity_samples": ambiguity_samples,
+        "violation_witnesses_by_source": dict(by_source),
         "divergences": int(ndiv),
         "divergence_signatures": dict(divergences),
         "skipped": dict(skips),
